@@ -165,6 +165,32 @@ Theorem failed_op_keeps_file : forall pf js fs cur st o code st',
 Proof. exact failed_op_keeps_file_lemma. Qed.
 Print Assumptions failed_op_keeps_file.
 
+(* the same when the request got as far as writing and the write to disk failed (ENOSPC, EFBIG, EIO):
+   the failure is reported and the file is what it was *)
+Theorem failed_write_keeps_file : forall pf js fs cur st o io code st',
+  run_sop_io pf js fs cur st o io = (code, st') -> code <> 0 -> st' = st.
+Proof. exact failed_op_io_keeps_file. Qed.
+Print Assumptions failed_write_keeps_file.
+
+Theorem failed_write_is_reported : forall pf js fs cur st o,
+  fst (run_sop_io pf js fs cur st o false) <> 0.
+Proof. exact L_Settings.failed_write_is_reported. Qed.
+Print Assumptions failed_write_is_reported.
+
+(* histories of one process: whatever requests failed (refused, or write failed), the settings
+   file at the end is what the successful requests alone produce -- nothing of a failed request
+   survives into later saves, deletes or reads *)
+Theorem failures_leave_no_trace : forall pf js fs cur h st,
+  run_hist pf js fs cur st h = run_hist pf js fs cur st (successes pf js fs cur st h).
+Proof. exact failures_leave_no_trace_lemma. Qed.
+Print Assumptions failures_leave_no_trace.
+
+Theorem failed_then_more : forall pf js fs cur st o io h,
+  fst (run_sop_io pf js fs cur st o io) <> 0 ->
+  run_hist pf js fs cur st ((o, io) :: h) = run_hist pf js fs cur st h.
+Proof. exact failed_then_more_lemma. Qed.
+Print Assumptions failed_then_more.
+
 (* ---------- crash atomicity ---------- *)
 (* for every op list in the protocol class (the recogniser is evaluated on the system calls the
    implementation REALLY issues, recovered by strace on every run): killed between any two
